@@ -170,6 +170,11 @@ func runProgram(c *Case, fsName string, r0 uint64) (trace []string, segs string,
 			if e != nil {
 				return true
 			}
+			if !reseeded && db.Count() == 0 {
+				// a database that is empty at Open draws a new random hash seed: pin it again, so that
+				// the order of scans stays the same in every run
+				db.VerifSetHashSeed(c.Cfg.HashSeed)
+			}
 			rec("reopen")
 		case "crashreopen", "crashtorn", "crashtornhdr", "failopen":
 			// simulated unclean shutdown with a torn tail, the same on every file system:
